@@ -45,7 +45,7 @@ def main():
             verdict, backend, ms, detail = smt.check(ob, ax, budget)
             out["obligations"].append({"name": ob.name, "kind": ob.kind, "props": ob.props, "verdict": verdict,
                                        "backend": backend, "ms": ms, "detail": (detail or "")[:4000], "info": ob.info})
-            if req.get("canary") and verdict != "proved" and ob.name.split("[")[0] not in (req.get("ignore") or []):
+            if req.get("canary") and verdict != "proved" and ob.name.split("[")[0] not in (req.get("ignore") or []) and ob.name not in (req.get("ignore") or []):
                 break
     except Unsupported as e:
         out["error"] = {"type": "unsupported", "msg": str(e)}
